@@ -79,7 +79,15 @@ PROPS = {
             "(decoders, iat/mat, ByteBitmap::find_in, try_backtrack). hashbrown vs std HashMap assumed."),
     "C16": ("other", "Accessor identities for every Match with <= 3 groups over a small name alphabet; successful_match "
             "builds one slot per group from the group data; capture instructions write exactly their group."),
-    "C17": ("other", "expand_replacement/replace* against the template specification on bounded templates/haystacks."),
+    "C17": ("other", "BOUNDED only. Template expansion: the real expand_replacement equals spec_expand (the template "
+            "specification written from the property text) on an enumerated set of concrete templates - quick: 50 curated "
+            "ones (`$$`, stray/trailing `$`, numbered references with leading zeros and long digit runs incl. values above "
+            "65535, `${name}` known/unknown/empty/unterminated, multi-byte text); thorough: additionally every template "
+            "of length <= 3 over {$,1,{,},n} - with symbolic group participation. Splice: replace_with and replace "
+            "(first match) equal the splice specification for every possible first match on a 3-byte haystack with a "
+            "2-byte character (matcher = arbitrary deterministic oracle). NOT covered: symbolic templates (do not close) "
+            "and the multi-match loop of replace_all / replace_all_with (does not close, even on one concrete match "
+            "table); its match sequence is the Matches iterator contracted under C09."),
     "C18": ("other", "escape(s) == esc_spec(s) for EVERY string s (Verus, unbounded, on the function text extracted from "
             "src/api.rs): each of the 14 syntax characters gets one backslash, every other character is copied in order; "
             "and the parser's CharacterEscape maps `\\c` back to the literal c for each of those characters in every mode, "
@@ -110,6 +118,8 @@ ASSUMPTIONS = {
     "C05": ["termination itself is not proved"],
     "C09": ["try_at_pos contract assumed by the oracle: start <= end <= len, end on a boundary, deterministic, State "
             "clean on None (E2/E3/E9 establish these per instruction)"],
+    "C17": ["Match values are built directly (accessors are contracted under C16 by j1_*)",
+            "the matcher is an oracle meeting try_at_pos's contract; successful_match is replaced by its contract stub"],
     "C10": ["content of FOLDS vs Unicode 17 CaseFolding.txt is unchecked"],
 }
 
